@@ -190,6 +190,12 @@ func runZoo(args []string) {
 			dist["successes"]++
 		}
 	}
+	// directed: maps whose elements are pointers / Scanners as destinations of every retrieval method
+	for _, w := range ptrElemMaps() {
+		rep.addCrash(Finding{Case: map[string]any{"directed": "map destinations with pointer, Scanner and interface elements"}, Kind: "crash", Detail: w})
+		dist["panics"]++
+	}
+	rep.countCase("directed: map destinations with pointer elements", true)
 	vdesc := func(v any) string { return fmt.Sprintf("%T(%.60v)", v, fmt.Sprintf("%#v", v)) }
 	newDB := func(rows int) (*sqlair.DB, func()) {
 		sqldb, st := fakedrv.Open()
